@@ -982,7 +982,6 @@ def temp_history(ctx, m, rng, solver):
         for c in new:
             _node_ids(c, dead)
         del new, go
-        gc.collect()
         req = "HIST %s %s VARS %s K [%s ] P%s E" % (
             backend, "D" if deduction else "A", vtok, "".join(" 1" if k else " 0" for k in keys),
             "".join(" %s %s" % (t, x) for t, x in posts_txt))
